@@ -15,7 +15,11 @@ type logItem struct {
 	typ   int // 1 or 2
 }
 
-var c20Owners = [3]interface{}{nil, "owner-A", "owner-B"}
+// owners are what the library itself uses: pointers. Two distinct owners may well
+// have equal contents (two connections of one server); they are still two owners.
+type c20Owner struct{ srv string }
+
+var c20Owners = [3]interface{}{nil, &c20Owner{"srv"}, &c20Owner{"srv"}}
 
 // match returns the ids of the entries of the last n of s[:k] that match (owner, typ); 0 = any.
 func c20Match(s []logItem, k, n, owner, typ int) []int {
